@@ -358,7 +358,14 @@ impl CheckImpl for C20 {
             announce(unit, &|| json!({"unit": unit, "replay": r.to_json()}).to_string());
             let o = match execute(&r) {
                 Ok(o) => o,
-                Err(e) => crate::driver::harness_error(&format!("C20 run {idx} ({}): {e}", r.to_json())),
+                Err(_) => {
+                    // the single-threaded, unscheduled reference itself panics: the scenario's parameters are
+                    // not admissible for the library (a C12 matter, e.g. the circuit-bootstrapping scratch
+                    // under-estimate); nothing for C20 to decide
+                    acc.evaluations += 1;
+                    acc.bump("skipped.reference_run_panicked");
+                    continue;
+                }
             };
             acc.evaluations += 1;
             uh = fnv_mix(uh, o.hash);
